@@ -1200,6 +1200,58 @@ func (m *Model) ruleCHECKPOINT(r *Results) {
 			r.bad(rule, m.declName(c.Parent())+" / other caller of the mark helper", m.instrPos(c), "the helper that advances the delivered-CAS mark is also called here, outside the delivery loop: the persisted checkpoint can exceed what was delivered")
 		}
 	}
+	// the checkpoint document lives in the feed's own collection: each per-collection feed of a
+	// bucket-wide start has the same ID and prefix, so any shared store would make them overwrite
+	// each other's position
+	{
+		nck := 0
+		for _, f := range m.Funcs {
+			if !m.inPkg(f) {
+				continue
+			}
+			m.eachCall(f, func(c ssa.CallInstruction) {
+				cc := c.Common()
+				// a call that is handed the checkpoint document (the struct with a LastSeq field), by value or by address
+				handsDoc := false
+				for _, a := range cc.Args {
+					v := a
+					if mi, ok := v.(*ssa.MakeInterface); ok {
+						v = mi.X
+					}
+					t := v.Type()
+					if pt, ok := t.(*types.Pointer); ok {
+						t = pt.Elem()
+					}
+					if st, ok := t.Underlying().(*types.Struct); ok && t != types.Type(nil) {
+						if n, ok := t.(*types.Named); ok && n.Obj().Pkg() == m.SSA.Pkg {
+							for i := 0; i < st.NumFields(); i++ {
+								if st.Field(i).Name() == "LastSeq" {
+									handsDoc = true
+								}
+							}
+						}
+					}
+				}
+				if !handsDoc {
+					return
+				}
+				var recv ssa.Value
+				if cc.IsInvoke() {
+					recv = cc.Value
+				} else if callee := cc.StaticCallee(); callee != nil && callee.Signature.Recv() != nil && len(cc.Args) > 0 {
+					recv = cc.Args[0]
+				} else {
+					return
+				}
+				nck++
+				okStore := m.onlyFeedCollection(recv, 0)
+				r.check(okStore, rule, m.declName(f)+" / checkpoint kept in the feed's own collection", m.instrPos(c), "the checkpoint document is read/written through the feed's own collection", "the checkpoint document is read or written through a data store other than the feed's own collection: the per-collection feeds of one bucket-wide feed share ID and prefix, so they would overwrite each other's position and a feed can resume beyond what it delivered")
+			})
+		}
+		if nck < 2 {
+			r.undecided(rule, "checkpoint document access", "-", "expected a read and a write of the checkpoint document, found %d", nck)
+		}
+	}
 	// the persisted value is that field; resume = field + 1
 	var persisted, resumed bool
 	for _, f := range m.Funcs {
@@ -1262,4 +1314,41 @@ func (m *Model) ruleCHECKPOINT(r *Results) {
 		r.check(conds <= 1, rule, name+" / checkpoint written on exit", m.instrPos(writer), "when the loop ends the checkpoint is written (if the mark changed)", "the checkpoint write after the loop depends on additional conditions")
 	}
 	_ = sort.Strings
+}
+
+// onlyFeedCollection: the value is (on every path) the collection field of a feed object.
+func (m *Model) onlyFeedCollection(v ssa.Value, depth int) bool {
+	if depth > 5 || m.A.CollectionType == nil {
+		return false
+	}
+	v = stripConv(v)
+	switch x := v.(type) {
+	case *ssa.MakeInterface:
+		return m.onlyFeedCollection(x.X, depth+1)
+	case *ssa.Phi:
+		for _, e := range x.Edges {
+			if !m.onlyFeedCollection(e, depth+1) {
+				return false
+			}
+		}
+		return len(x.Edges) > 0
+	case *ssa.Call:
+		callee := x.Common().StaticCallee()
+		if callee == nil || !m.inPkg(callee) || len(callee.Blocks) == 0 {
+			return false
+		}
+		for _, ret := range returnsOf(callee) {
+			if len(ret.Results) == 0 || !m.onlyFeedCollection(ret.Results[0], depth+1) {
+				return false
+			}
+		}
+		return true
+	case *ssa.UnOp:
+		if _, f, ok := fieldLoad(x); ok {
+			if pt, ok := f.Type().(*types.Pointer); ok && pt.Elem() == types.Type(m.A.CollectionType) {
+				return true
+			}
+		}
+	}
+	return false
 }
